@@ -427,6 +427,24 @@ class Specs:
             os.pure = True
             os.bound = st.bound
             return ex.ev1(a[0], os, fr)
+        if name == 'sum' and len(a) == 1 and isinstance(a[0], ast.GeneratorExp) and len(a[0].generators) == 1 \
+                and not a[0].generators[0].ifs:
+            # sum(e(x) for x in <list>): the finite sum of the mapped sequence (same function lsum as the code's sum())
+            from . import calls
+            g = a[0].generators[0]
+            src = ex.ev1(g.iter, st, fr)
+            if not (isinstance(src, V) and src.kind == 'ref' and src.ty.cls == 'list'):
+                raise Unsupported('sum over ' + ast.unparse(g.iter))
+            seqv = SeqV(src.ty.elem, st.heap.llen(src.t), st.heap.larrs(src.t, src.ty.elem))
+            i = z3.Int(f'sm{next(sym._counter)}')
+            ps2 = st.fork()
+            ps2.pure = True
+            b = {}
+            ps2.bound = st.bound + [b]
+            ex.assign_bound(g.target, seqv.at(i), b)
+            body = ex.ev1(a[0].elt, ps2, fr)
+            arr = z3.Lambda([i], sym.to_real(body.t))
+            return vreal(calls.sum_term(arr, seqv.n))
         if name in ('all', 'any') and len(a) == 1 and isinstance(a[0], ast.GeneratorExp):
             return vbool(self.quantify(ex, a[0], st, fr, name == 'all'))
         if name == 'implies':
